@@ -45,7 +45,7 @@ EDGE = [b"#define X(", b"#define X(a", b"#if 1 /", b"#if 1 / 0\n#endif\n", b"#if
         b"#pragma pop_macro(\"X\")\nint X;\n", b"#pragma push_macro(\"X\")\n#pragma pop_macro(\"X\")\n#pragma pop_macro(\"X\")\nint a = X;\n",
         b"#pragma push_macro(\"\")\n#pragma pop_macro(\"\n", b"#define d (struct s:\n", b"#if (struct s {\n#endif\n", b"#define e (enum {a\nint x = e;\n",
         b"decltype(undeclared_name) x;", b"struct B;\nstruct A : B {\n__published:\n  virtual int fa();\n};\nstruct B : A {\n__published:\n  int fb();\n};\n",
-        b"template<class... Ts> struct V;\ntemplate<class P> struct H<V<P", b"#line 5\n#line\n#line x\n", b"#error\n#warning\n", b"#elifdef X\n#elifndef\n", b"#include_next <x>\n", b"#ident \"x\"\n#assert x\n"]
+        b"template<class... Ts> struct V;\ntemplate<class P> struct H<V<P", b"struct S {\n__published:\n  S a;\n  int x;\n};\n", b"struct Q;\nstruct P { Q *p; };\nstruct Q {\n__published:\n  P p; Q q; int g();\n};\n", b"#line 5\n#line\n#line x\n", b"#error\n#warning\n", b"#elifdef X\n#elifndef\n", b"#include_next <x>\n", b"#ident \"x\"\n#assert x\n"]
 
 
 def stages(ctx):
